@@ -79,10 +79,18 @@ def _fit(case):
     y = R.build_vector(case, case["y_kind"], case["y"])
     sf = R.build_vector(case, case["sf_kind"], R.group_labels(case))
     swn = bool(case.get("swn"))
+    extra = {}
+    if case.get("costs"):
+        # user-supplied objective: cost-weighted error (costs <= 1 keep the objective in [0,1], as the bound
+        # (1 + 2g)/B presupposes)
+        from fairlearn.reductions import ErrorRate
+
+        extra["objective"] = ErrorRate(costs=dict(case["costs"]))
     eg = ExponentiatedGradient(
         (ExactTableW if swn else ExactTable)(tie=case.get("tie", 0)),
         R.build_moment(case),
         **({"sample_weight_name": "w"} if swn else {}),
+        **extra,
         eps=case["eps"],
         max_iter=case["max_iter"],
         nu=case["nu"],
@@ -243,6 +251,7 @@ def _cases(draw):
     case["nu"] = draw(st.sampled_from([1e-6, 1e-3, 0.05]))
     case["eta0"] = draw(st.sampled_from([0.5, 2.0, 8.0]))
     case["lp"] = draw(st.booleans())
+    case["costs"] = draw(st.sampled_from([None, None, None, {"fp": 0.5, "fn": 1.0}, {"fp": 1.0, "fn": 0.25}, {"fp": 1.0, "fn": 1.0}]))
     return case
 
 
